@@ -16,7 +16,7 @@ BOUND = ("d in {1,2,3} (standard), {2,3} (adaptive); domains [0,1]^d and one shi
          "standard: Trapezoidal (boundary on/off/modified basis), ClenshawCurtis, GaussLegendre, Leja, Simpson grids, 1<=lmin<=lmax<=4; "
          "dimension-adaptive: DimAdaptiveCombi.perform_combi(1,2,tol,max_points), tol in {1e-1,1e-2,1e-3}, Trapezoidal/ClenshawCurtis with boundary, <=8 refinements; "
          "dimension-wise: GlobalTrapezoidalGrid boundary on/off, versions {6,2,3,7,8}, rebalancing on/off, lmax in {2,3}; "
-         "extend-split version 0: TrapezoidalGrid with boundary, refinements-before-extend in {1,2,3}, automatic_extend_split, split_single_dim; "
+         "extend-split version 0: TrapezoidalGrid with boundary (some 2-D configurations: LagrangeGrid p=2, compared with a fresh grid's integrate()), refinements-before-extend in {1,2,3}, automatic_extend_split, split_single_dim; "
          "every stop index of runs with <=8 refinement steps reached freshly by max_evaluations (and some by tolerance), "
          "plus stops reached by continue_adaptive_refinement after an earlier stop; seeded pseudo-random selection")
 RULE = BOUND + ("; a case is one (strategy configuration, integrand, stopping limits[, resumed from]) ; non-trivial = the scheme has more than one "
@@ -253,6 +253,8 @@ def adaptive_configs(ctx):
         elif mode == 2:
             opts["split_single_dim"] = True
         g = {"type": "Trapezoidal", "boundary": True}
+        if d == 2 and ((mode == 1 and i % 8 == 1) or (mode == 0 and i % 8 == 4)):
+            g = {"type": "Lagrange", "boundary": True, "p": 2}     # high-order hierarchical grid: the parent-estimation branches of the error estimate are live
         lmax = 2 if (d == 3 or rng.random() < 0.6) else 3
         out.append(({"strategy": "extend", "a": a, "b": b, "grid": g, "norm": rng.choice([1, 2, "inf"]), "opts": opts}, 1, lmax))
     rng.shuffle(out)
